@@ -230,7 +230,10 @@ def _get_hidden_metadata_mutates(note: Note) -> list[_MetadataMutate]:
                 )
 
     for key, value in sorted(note.properties.items()):
-        prop_value = f"{key}::{value}"
+        # A value that contains spaces needs the inline property syntax.
+        prop_value = (
+            f"[{key}:: {value}]" if " " in value else f"{key}::{value}"
+        )
         if f"{key}::" not in note.body:
             metadata_mutates.append(
                 _MetadataMutate(mtype="properties", value=prop_value)
